@@ -244,10 +244,24 @@ def gen_history(rng, td_paths, consolidated_at):
     pass
 
 
+def expand_ops(ops):
+    """the ops as the model runs them: a trip to another process and back is two reductions"""
+    out = []
+    for op in ops:
+        if op[0] == "reduce":
+            out += [["reduce"]] * (2 if op[1] in ("fork", "spawn") else 1)
+        else:
+            out.append(op)
+    return out
+
+
 def compare_history(run, m, td, case, consolidated, is_current):
     """model answer `m` of c11.history vs the tensordict `td` after the same history: state, snapshot, freshness, pickle, deepcopy"""
     m_fresh, m_lay, m_fixed, m_pinned, m_obs = m[0], m[1], norm_model_obs(m[2]), norm_model_obs(m[3]), norm_model_obs(m[4])
-    run.corr("history.state", case, obs_of(td), m_obs)
+    run.corr("history.state", case, dev_norm(obs_of(td)) if any(o[0] == "reduce" for o in case["ops"]) else obs_of(td),
+             dev_norm(m_obs) if any(o[0] == "reduce" for o in case["ops"]) else m_obs)
+    consolidated = getattr(td, "_consolidated", None) is not None
+    run.corr("history.has_snapshot", case, consolidated, m_fresh != "nosnap")
     if consolidated:
         cons = td._consolidated
         impl_lay = [[[m_[0], m_[1], m_[2], m_[3]] for m_ in sorted(flat_meta(cons["metadata"]), key=lambda m_: (m_[3][0], m_[3][1], m_[0]))], list(cons["storage"].tolist())]
@@ -308,6 +322,11 @@ def tensor_from(dtype_name, shape, bs):
     return raw.view(dt).reshape(shape).clone()
 
 
+def echo(x):
+    """run in a worker process: what arrived is sent back (two trips through the reducer)"""
+    return x
+
+
 def replay_histories(run, drv, cases, scratch):
     """re-run recorded histories (corpus entries or the failures of a replay file)"""
     from tensordict import TensorDict
@@ -351,6 +370,10 @@ def replay_histories(run, drv, cases, scratch):
                 td.names = op[1]
             elif kind == "rename":
                 td.rename_key_(tuple(op[1]), tuple(op[2]))
+            elif kind == "reduce":
+                td = copy.deepcopy(td) if op[1] == "deepcopy" else pickle.loads(pickle.dumps(td))
+                if op[1] in ("fork", "spawn"):
+                    td = pickle.loads(pickle.dumps(td))
             elif kind == "swap":
                 va, vb = td[tuple(op[1])], td[tuple(op[2])]
                 td[tuple(op[1])] = vb
@@ -358,7 +381,7 @@ def replay_histories(run, drv, cases, scratch):
             elif kind == "assign":
                 v = td[tuple(op[2])]
                 td[tuple(op[1])] = v.clone() if op[3] else v
-        m = parse_sx(drv.ask(sx("c11.history", c["nodes"], c["entries"], c["ops"])))
+        m = parse_sx(drv.ask(sx("c11.history", c["nodes"], c["entries"], expand_ops(c["ops"]))))
         run.case(("history-replay", ci))
         compare_history(run, m, td, c, consolidated, is_current)
     return n
@@ -375,6 +398,10 @@ def run_histories(run, drv):
     scratch.mkdir(parents=True, exist_ok=True)
     is_current = getattr(R, "_consolidated_is_current", None)
     reqs, metas = [], []
+    import torch.multiprocessing as mp
+    pools = {"fork": mp.get_context("fork").Pool(1)}
+    if not quick:
+        pools["spawn"] = mp.get_context("spawn").Pool(1)
     try:
         for h in range(n_hist):
             b = rng.choice([[2], [3], [2, 2]])
@@ -393,6 +420,8 @@ def run_histories(run, drv):
             kinds_used = []
             aborted = False
             slots = set()     # the keys bound to a view of the consolidated storage (python-side bookkeeping for `assign`)
+            aliased = False   # two keys share one view (after `assign`): no trip through the reducer afterwards (the model would un-share them)
+            reduced = False
             for step in range(n_ops):
                 paths = [tuple(l[0]) for l in obs_of(td)[1]]
                 if step == cons_at:
@@ -423,9 +452,39 @@ def run_histories(run, drv):
                     kinds_used.append("consolidate-file" if file else "consolidate")
                     continue
                 choices = ["inplace", "inplace", "lock" if not locked else "unlock", "names"]
+                # (entries without elements point to no data: the library compares neither their address nor — offsets being equal —
+                #  their position, the model does; a trip through the reducer in the middle of a history is drawn without them)
+                if not aliased and all(td[p_].numel() > 0 for p_ in paths):
+                    choices += ["reduce"]
                 if not locked:
-                    choices += ["set_new", "set_new", "replace", "del", "rename", "set_nested", "swap", "swap", "swap_rename", "assign"]
+                    choices += ["set_new", "set_new", "replace", "del", "rename", "set_nested", "swap", "swap", "swap_rename"] + ([] if reduced else ["assign"])
                 kind = rng.choice(choices)
+                if kind == "reduce":
+                    # the history goes on with the pickled / deep-copied tensordict, or with the one that came back from another process
+                    how = rng.choice(["pickle", "deepcopy", "fork"] + (["spawn"] if "spawn" in pools else []))
+                    try:
+                        with time_limit(120):
+                            if how == "pickle":
+                                td = pickle.loads(pickle.dumps(td))
+                            elif how == "deepcopy":
+                                td = copy.deepcopy(td)
+                            else:
+                                td = pools[how].apply(echo, (td,))
+                    except TimeoutError as e:
+                        raise Infra(f"{how} timed out: {e}")
+                    except Exception as e:  # noqa: BLE001
+                        # the storage of a tensordict consolidated in a file is a `torch.from_file(shared=True)` tensor
+                        st_ = (getattr(td, "_consolidated", None) or {}).get("storage")
+                        in_file = any(o[0] == "consolidate" and o[1] for o in ops_sx) and st_ is not None
+                        run.oracle_fail("pickle_equals_now", {"struct": str(struct), "ops": ops_sx, "how": how},
+                                        f"{how} raised {type(e).__name__}: {str(e)[:120]}",
+                                        f"{how}:raise:" + type(e).__name__ + (":file-consolidated" if in_file else ""))
+                        aborted = True
+                        break
+                    ops_sx.append(["reduce", how])
+                    reduced = True
+                    kinds_used.append("reduce-" + how)
+                    continue
                 if kind == "inplace" and paths:
                     p = rng.choice(paths)
                     t = td[p]
@@ -501,6 +560,7 @@ def run_histories(run, drv):
                         # the slot); memory of its own is copied (the model does not share `own` memory between entries)
                         cl = q not in slots
                         v = td[q]
+                        aliased = aliased or not cl
                         td[dst] = v.clone() if cl else v
                         ops_sx.append(["assign", list(dst), list(q), cl])
                         slots.discard(dst)
@@ -537,7 +597,7 @@ def run_histories(run, drv):
                 kinds_used.append(kind)
             if aborted:
                 continue
-            reqs.append(sx("c11.history", init_nodes, init_entries, ops_sx))
+            reqs.append(sx("c11.history", init_nodes, init_entries, expand_ops(ops_sx)))
             metas.append((len(reqs) - 1, td, ops_sx, kinds_used, consolidated, init_nodes, init_entries))
         answers = [parse_sx(a) for a in ask_batched(drv, reqs, 20)]
         for (h, td, ops_sx, kinds_used, consolidated, init_nodes, init_entries), m in zip(metas, answers):
@@ -550,4 +610,7 @@ def run_histories(run, drv):
             if h < 3:
                 run.sample({"stream": "history", "ops": ops_sx, "model_fresh": m_fresh})
     finally:
+        for p_ in pools.values():
+            p_.terminate()
+            p_.join()
         shutil.rmtree(scratch, ignore_errors=True)
